@@ -6,6 +6,7 @@ import (
 	"context"
 	"fmt"
 	"runtime"
+	"strings"
 	"sync"
 	"sync/atomic"
 	"testing"
@@ -226,7 +227,7 @@ func TestVerifC16Hybrid(t *testing.T) {
 	racers := []string{"none", "ops-during-close", "parent-cancel"}
 	run.Floor("overlap_runs", 100)
 	scope := []string{"tunnox-core/internal/core/storage/"}
-	for done := 0; done < n && run.Violations() < 20; done += batch {
+	for done := 0; done < n && run.Violations() < 20 && run.Counter("leak_violations") < 3; done += batch {
 		snap := vk.SnapshotGoroutines()
 		memLeakChecked := false
 		for b := 0; b < batch && done+b < n; b++ {
@@ -343,7 +344,8 @@ func TestVerifC16Hybrid(t *testing.T) {
 					memLeakChecked = true
 					if l := snap.Leaked(scope, nil, 500*time.Millisecond); len(l) > 0 {
 						sum := vk.FrameSummary(l)
-						run.Violation("C16:hybrid|goroutine-left|"+sum[0], map[string]any{"case": desc, "leaked": len(l), "frames": sum, "stack": l[0].Stack})
+						run.Violation("C16:hybrid|goroutine-left|"+c16LeakFn(sum[0]), map[string]any{"case": desc, "leaked": len(l), "frames": sum, "stack": l[0].Stack})
+						run.Count("leak_violations", 1) // after 3 the test stops: every further trial would wait the full poll interval
 					}
 				}
 				_ = mem.Close()
@@ -353,8 +355,17 @@ func TestVerifC16Hybrid(t *testing.T) {
 		// asynchronous write-backs of Get() finish on their own; then nothing may remain
 		if l := snap.Leaked(scope, nil, 3*time.Second); len(l) > 0 {
 			sum := vk.FrameSummary(l)
-			run.Violation("C16:hybrid|goroutine-left|"+sum[0], map[string]any{"batch_start": done, "leaked": len(l), "frames": sum, "stack": l[0].Stack})
+			run.Violation("C16:hybrid|goroutine-left|"+c16LeakFn(sum[0]), map[string]any{"batch_start": done, "leaked": len(l), "frames": sum, "stack": l[0].Stack})
+			run.Count("leak_violations", 1) // after 3 the test stops: every further trial would wait the full poll interval
 		}
 		run.Count("leak_checks", 1)
 	}
+}
+
+// c16LeakFn strips the (varying) goroutine state from a vk.FrameSummary entry.
+func c16LeakFn(s string) string {
+	if i := strings.Index(s, "tunnox-core/"); i >= 0 {
+		return s[i:]
+	}
+	return s
 }
